@@ -65,3 +65,99 @@ def _(cost, disp, measure):
                                   eq(result[0], 0) and eq(result[1], cost[1])))
     ensures("never_worse", implies(not stopped(cost[0], cost[1], cost[2], measure),
                                    isfinite(result[1]) and sgn(measure) * result[1] <= sgn(measure) * cost[1]))
+
+
+# what loop_refinement may assume of ANY refinement method (Vfit and Quadratic are proved against it too)
+@contract("pandora.refinement.refinement.AbstractRefinement.refinement_method", abstract=True)
+def _(cost, disp, measure):
+    types(cost="f64[3]", disp="float", measure="str", result=("float", "float", "int"))
+    requires("finite_or_nan", not isinf(cost[0]), isfinite(cost[1]), not isinf(cost[2]))
+    requires("measure", measure == "min" or measure == "max")
+    raises_never()
+    ensures("flag", result[2] == (8 if stopped(cost[0], cost[1], cost[2], measure) else 0))
+    ensures("stopped_untouched", implies(stopped(cost[0], cost[1], cost[2], measure), eq(result[0], 0) and eq(result[1], cost[1])))
+    ensures("half_sample", implies(not stopped(cost[0], cost[1], cost[2], measure),
+                                   isfinite(result[0]) and -0.5 <= result[0] and result[0] <= 0.5))
+    ensures("never_worse", implies(not stopped(cost[0], cost[1], cost[2], measure),
+                                   isfinite(result[1]) and sgn(measure) * result[1] <= sgn(measure) * cost[1]))
+
+
+@spec
+def invalid_px(m) -> "bool":
+    # PANDORA_MSK_PIXEL_INVALID = bits 0, 1, 6, 7, 8, 9
+    return (m & 963) != 0
+
+
+@spec
+def sample_index(d, d_min, subpixel) -> "int":
+    return trunc((d - d_min) * subpixel)
+
+
+@spec
+def refined_pixel(cv, disp0, mask0, disp1, mask1, coeff, r, c, d_min, subpixel, measure) -> "bool":
+    # property C06, per pixel.  k = index of the sample the pixel received.
+    return (
+        (eq(disp1[r, c], disp0[r, c]) and mask1[r, c] == mask0[r, c] and isnan(coeff[r, c]))
+        if invalid_px(mask0[r, c]) else
+        (eq(disp1[r, c], disp0[r, c]) and mask1[r, c] == mask0[r, c] and isnan(coeff[r, c]))
+        if isnan(cv[r, c, sample_index(disp0[r, c], d_min, subpixel)]) else
+        (eq(disp1[r, c], disp0[r, c]) and mask1[r, c] == (mask0[r, c] | 8)
+         and eq(coeff[r, c], cv[r, c, sample_index(disp0[r, c], d_min, subpixel)]))
+        if (sample_index(disp0[r, c], d_min, subpixel) == 0 or sample_index(disp0[r, c], d_min, subpixel) == cv.shape[2] - 1) else
+        (eq(disp1[r, c], disp0[r, c]) and mask1[r, c] == (mask0[r, c] | 8)
+         and eq(coeff[r, c], cv[r, c, sample_index(disp0[r, c], d_min, subpixel)]))
+        if stopped(cv[r, c, sample_index(disp0[r, c], d_min, subpixel) - 1], cv[r, c, sample_index(disp0[r, c], d_min, subpixel)],
+                   cv[r, c, sample_index(disp0[r, c], d_min, subpixel) + 1], measure) else
+        (mask1[r, c] == mask0[r, c] and isfinite(disp1[r, c])
+         and (disp1[r, c] - disp0[r, c]) * subpixel <= 0.5 and (disp1[r, c] - disp0[r, c]) * subpixel >= -0.5
+         and isfinite(coeff[r, c])
+         and sgn(measure) * coeff[r, c] <= sgn(measure) * cv[r, c, sample_index(disp0[r, c], d_min, subpixel)])
+    )
+
+
+@contract("pandora.refinement.refinement.AbstractRefinement.loop_refinement", props=["C06", "C04", "C18"])
+def _(cv, disp, mask, d_min, d_max, subpixel, measure, method):
+    types(cv="f32[:,:,:]", disp="f32[:,:]", mask="u16[:,:]", d_min="float", d_max="float", subpixel="int", measure="str",
+          method="func:pandora.refinement.refinement.AbstractRefinement.refinement_method",
+          result=("f64[:,:]", "f32[:,:]", "u16[:,:]"))
+    option(replay_method="pandora.refinement.vfit.Vfit.refinement_method")
+    cases(subpixel=[1, 2, 4])   # the documented sub-pixel precisions; keeps (disp - d_min) * subpixel linear
+    requires("shapes", cv.shape[2] >= 1, disp.shape[0] == cv.shape[0], disp.shape[1] == cv.shape[1],
+             mask.shape[0] == cv.shape[0], mask.shape[1] == cv.shape[1])
+    requires("sampling", subpixel >= 1, isfinite(d_min), isfinite(d_max), (d_max - d_min) * subpixel == cv.shape[2] - 1)
+    requires("measure", measure == "min" or measure == "max")
+    requires("costs_finite_or_nan", all(not isinf(cv[r, c, k]) for r in range(cv.shape[0]) for c in range(cv.shape[1])
+                                        for k in range(cv.shape[2])))
+    # what every legal pipeline establishes for a valid pixel: a finite disparity inside the searched interval.
+    # (NOT assumed: that it is one of the samples -- a filter or a previous refinement may have moved it.)
+    requires("valid_in_interval", all(implies(not invalid_px(mask[r, c]), isfinite(disp[r, c]) and d_min <= disp[r, c] and disp[r, c] <= d_max)
+                                      for r in range(cv.shape[0]) for c in range(cv.shape[1])))
+    assigns(disp, mask)
+    raises_never()
+    ensures("pixelwise", all(refined_pixel(cv, old(disp), old(mask), result[1], result[2], result[0], r, c, d_min, subpixel, measure)
+                             for r in range(cv.shape[0]) for c in range(cv.shape[1])))
+    ensures("in_place", result[1] is disp and result[2] is mask)
+    invariant(1, all(refined_pixel(cv, old(disp), old(mask), disp, mask, itp_coeff, r, c, d_min, subpixel, measure)
+                     for r in range(row) for c in range(n_col)))
+    invariant(2, all(refined_pixel(cv, old(disp), old(mask), disp, mask, itp_coeff, row, c, d_min, subpixel, measure)
+                     for c in range(col)))
+
+
+@sampler("pandora.refinement.refinement.AbstractRefinement.loop_refinement")
+def _(rng):
+    from pandora.refinement.vfit import Vfit
+    from pandora.refinement.quadratic import Quadratic
+    h, w, n = int(rng.integers(1, 4)), int(rng.integers(1, 5)), int(rng.integers(1, 6))
+    sub = int([1, 2, 4][rng.integers(0, 3)])
+    d_min = float(rng.integers(-3, 3))
+    d_max = d_min + (n - 1) / sub
+    cv = rng.integers(0, 6, size=(h, w, n)).astype(np.float32)
+    cv[rng.random((h, w, n)) < 0.15] = np.nan
+    # disparities of valid pixels: anywhere in [d_min, d_max] on a 1/8 grid (a filter or an earlier refinement may have
+    # moved them off the samples)
+    steps = int(round((d_max - d_min) * 8))
+    disp = (d_min + rng.integers(0, steps + 1, size=(h, w)) / 8.0).astype(np.float32)
+    mask = np.array([0, 0, 0, 4, 8, 12, 1, 64, 2, 256], dtype=np.uint16)[rng.integers(0, 10, size=(h, w))]
+    return {"cv": cv, "disp": disp, "mask": mask, "d_min": d_min, "d_max": d_max, "subpixel": sub,
+            "measure": ["min", "max"][rng.integers(0, 2)],
+            "method": [Vfit.refinement_method, Quadratic.refinement_method][rng.integers(0, 2)]}
